@@ -1458,6 +1458,9 @@ class _tzparser(object):
 
                 i += 1
 
+                # A comma announces the rules: nothing after it is an error
+                assert i < len_l
+
             if i >= len_l:
                 pass
             elif (8 <= l.count(',') <= 9 and
